@@ -1,13 +1,16 @@
 """C07 — application data cannot inject header lines or split a response.  DESIGN §6.1 C07.
 
 P: RequestHandler._convert_header_value: normal return => value in [\\t\\x20-\\x7e\\x80-\\xff]* (no CR, LF, NUL) for
-str and bytes inputs, otherwise only ValueError/TypeError;  set_status: the stored reason is in reason-phrase and
-has no '<', or is "Unknown";  HTTP1Connection.write_headers (the choke point every response passes): normal
-return => every line handed to the stream (status line and each header line) is free of CR and LF, else
-ValueError and nothing is written.
+str and bytes inputs, otherwise only ValueError/TypeError;  set_header / HTTPHeaders.add: an accepted header *name*
+is an RFC 9110 token;  set_status: the stored reason is in reason-phrase and has no '<', or is "Unknown";
+set_cookie: accepted name/domain/path/samesite free of controls, space, DEL and ';', value free of controls and
+space, exactly these strings handed to the cookie library;  HTTP1Connection.write_headers (the choke point every
+response passes): normal return => every line handed to the stream (status line and each header line) is free of
+CR and LF, else ValueError and nothing is written.
 B: every header-producing API (set_header, add_header, set_status reason, set_cookie name/value/attributes,
-redirect) x strings over a 17-symbol hostile alphabet (len <= 3) through the real Application + server; the wire
-header block must consist of the baseline lines plus exactly the intended line(s), or the call must raise.
+redirect) x strings over a 17-symbol hostile alphabet (len <= 2 quick, <= 3 thorough) through the real Application +
+server; the wire header block must consist of the baseline lines plus exactly the intended line(s), or the
+operation must be rejected with an exception (in the setter, or when the response is serialised with nothing written).
 """
 import re
 
@@ -18,9 +21,10 @@ from pyvc.proxies import And, Or, Not, Implies, SBool, SInt, SStr, Len
 from pyvc import regex
 
 LEVEL = "other"
-EXPLANATION = ("MIXED: per-API validators and the write_headers choke point proved by SMT (regex language inclusions; no CR/LF in any line "
-               "written, else ValueError before anything is written); 'exactly the intended header lines' incl. cookie serialisation by a "
-               "bounded hostile-alphabet sweep over every header-producing API through the real server.")
+EXPLANATION = ("MIXED: per-API validators and the write_headers choke point proved by SMT as regex-language inclusions over arbitrary "
+               "strings (header value, header name via set_header and HTTPHeaders.add, status reason, cookie name/value/attributes; no CR/LF "
+               "in any line written, else ValueError before anything is written); 'exactly the intended header lines' incl. cookie "
+               "serialisation and redirect by a bounded hostile-alphabet sweep over every header-producing API through the real server.")
 TRUSTED = ["regex translation (A-REGEX)", "http.cookies serialisation (stand-in only)", "stream.write as a recording stub"]
 ASSUMPTIONS = ["A-TYPES: header values are str/bytes/int/datetime"]
 SAFE = r"[\t\x20-\x7e\x80-\xff]*"
@@ -53,13 +57,142 @@ def u_convert(c):
         c.cover("rejected")
 
 
+TOKEN = r"[!#$%&'*+\-.^_`|~0-9A-Za-z]+"
+
+
+class _RecordingHeaders:
+    """stands for the handler's HTTPHeaders in the name units: records what is stored (HTTPHeaders' own key-set
+    behaviour is C06's contract)."""
+
+    def __init__(self):
+        self.stored = []
+
+    def __contains__(self, k):
+        return False
+
+    def __setitem__(self, k, v):
+        self.stored.append((k, v))
+
+
+def _name_clauses(c, out, name, stored, what):
+    import tornado.httputil as U
+    c.only_raises(out, (ValueError, TypeError, U.HTTPInputError))
+    if out.raised:
+        c.cover("%s/rejected" % what)
+        c.oblige("rejected-name-stores-nothing", stored == [])
+        return
+    c.cover("%s/accepted" % what)
+    c.oblige("accepted-header-name-is-an-RFC-9110-token", regex.in_lang(name, re.compile(TOKEN)) if c.symbolic
+             else re.fullmatch(TOKEN, name) is not None)
+    c.oblige("exactly-one-header-stored", len(stored) == 1)
+
+
+@unit("C07", "RequestHandler.set_header.name", [("tornado.web", "RequestHandler.set_header")])
+def u_set_header_name(c):
+    """the name an application passes to set_header is the start of a header line: a normal return => it is a token
+    (no CR, LF, NUL, colon, whitespace or other separator), so the line on the wire is exactly 'name: value'."""
+    import tornado.web as W
+    import tornado.httputil as U
+    h = W.RequestHandler.__new__(W.RequestHandler)
+    h._headers = _RecordingHeaders()
+    name = c.str("name")
+    if not c.symbolic and c.model is None:
+        name = c.rng.choice(["X-A", "X\x00B", "X\t", "X: y", "X\r\nY", "", "é", "X_1.2~", name])
+    with c.patched(*regex.regex_patches(U, (U._ABNF,)), *regex.regex_patches(W),
+                   (W.RequestHandler, "_VALID_HEADER_CHARS", regex.SPattern(W.RequestHandler._VALID_HEADER_CHARS))):
+        out = c.call(c.fn("tornado.web", "RequestHandler.set_header"), h, name, "v")
+    _name_clauses(c, out, name, h._headers.stored, "set_header")
+
+
+@unit("C07", "HTTPHeaders.add.name", [("tornado.httputil", "HTTPHeaders.add")])
+def u_add_name(c):
+    """RequestHandler.add_header and flush's Set-Cookie lines go through HTTPHeaders.add: same clause for its name."""
+    import tornado.httputil as U
+    h = _RecordingHeaders()
+    name = c.str("name")
+    if not c.symbolic and c.model is None:
+        name = c.rng.choice(["X-A", "X\x00B", "X\t", "X: y", "X\r\nY", "", "é", "X_1.2~", name])
+    with c.patched(*regex.regex_patches(U, (U._ABNF,)), (U, "_normalize_header", lambda n: n)):
+        out = c.call(c.fn("tornado.httputil", "HTTPHeaders.add"), h, name, "v")
+    _name_clauses(c, out, name, h.stored, "add")
+
+
+@unit("C07", "RequestHandler.set_cookie.attributes", [("tornado.web", "RequestHandler.set_cookie")])
+def u_set_cookie(c):
+    """cookie name and the string attributes end up unquoted in the Set-Cookie line (http.cookies quotes only the value):
+    a normal return => none of them contains a control character, space, DEL or ';', the value has no control character
+    or space, and exactly these strings are what the cookie library is given (it is a recording stub here; its
+    serialisation is exercised by the stand-in)."""
+    import http.cookies
+    import types
+    import tornado.web as W
+    h = W.RequestHandler.__new__(W.RequestHandler)
+    given = []
+
+    class Morsel(dict):
+        def __setitem__(self, k, v):
+            given.append((k, v))
+
+    class Jar:
+        def __init__(self):
+            self.m = {}
+
+        def __contains__(self, k):
+            return False
+
+        def __setitem__(self, k, v):
+            given.append(("<name>", k))
+            given.append(("<value>", v))
+            self.last = Morsel()
+
+        def __getitem__(self, k):
+            return self.last
+    fake_http = types.SimpleNamespace(cookies=types.SimpleNamespace(SimpleCookie=Jar, CookieError=http.cookies.CookieError))
+    name, value = c.str("name"), c.str("value")
+    attrs = {}
+    for a in ("domain", "path", "samesite"):
+        if c.choose("has_" + a, [True, False]):
+            attrs[a] = c.str(a)
+    if "path" not in attrs:
+        attrs["path"] = "/"
+    if not c.symbolic and c.model is None:
+        bad = ["a;b", "a b", "x\r\ny", "\x00", "ok", "/p", "Lax", "a\x7f", "é"]
+        name = c.rng.choice(["n", "n;x", name])
+        value = c.rng.choice(["v", "a b", "a\nb", "é;", value])
+        attrs = {k: c.rng.choice(bad + [v]) for k, v in attrs.items()}
+    with c.patched(*regex.regex_patches(W), (W, "http", fake_http)):
+        out = c.call(c.fn("tornado.web", "RequestHandler.set_cookie"), h, name, value, **attrs)
+    c.only_raises(out, (ValueError, http.cookies.CookieError))
+    if out.raised:
+        c.cover("set_cookie/rejected")
+        c.oblige("rejected-cookie-stores-nothing", given == [])
+        return
+    c.cover("set_cookie/accepted")
+    unq = re.compile(r"[^\x00-\x20;\x7f]*")
+    c.oblige("name-free-of-controls-space-and-semicolon", regex.in_lang(name, unq) if c.symbolic else unq.fullmatch(name) is not None)
+    c.oblige("value-free-of-controls-and-space", regex.in_lang(value, re.compile(r"[^\x00-\x20]*")) if c.symbolic
+             else re.fullmatch(r"[^\x00-\x20]*", value) is not None)
+    for a, v in attrs.items():
+        if isinstance(v, str):
+            c.oblige("%s-free-of-controls-space-and-semicolon" % a, unq.fullmatch(v) is not None)
+        else:
+            c.oblige("%s-free-of-controls-space-and-semicolon" % a, regex.in_lang(v, unq))
+    gd = dict((k, v) for k, v in given)
+    c.oblige("cookie-library-gets-one-name-and-value", [k for k, _ in given].count("<name>") == 1 and [k for k, _ in given].count("<value>") == 1)
+    c.oblige("cookie-library-is-given-exactly-this-name-and-value", And(gd["<name>"] == name, gd["<value>"] == value))
+    for a, v in attrs.items():
+        # an attribute is handed on unchanged, or skipped when it is the empty string
+        c.oblige("%s-handed-on-unchanged-or-empty" % a, (gd[a] == v) if a in gd else (v == ""))
+    c.oblige("no-other-attribute-set", set(gd) <= {"<name>", "<value>"} | set(attrs))
+
+
 @unit("C07", "RequestHandler.set_status.reason", [("tornado.web", "RequestHandler.set_status")])
 def u_set_status(c):
     import tornado.web as W
     import tornado.httputil as U
     h = W.RequestHandler.__new__(W.RequestHandler)
     reason = c.str("reason")
-    if not c.symbolic:
+    if not c.symbolic and c.model is None:
         reason = c.rng.choice(["OK", "a\r\nX: y", "<b>", "", "é", "a\x00b", "Not Found", "tab\there", reason])
     with c.patched(*regex.regex_patches(U, (U._ABNF,))):
         out = c.call(c.fn("tornado.web", "RequestHandler.set_status"), h, 200, reason)
@@ -95,7 +228,7 @@ def u_choke(c):
             return None
     conn.stream = S()
     name, value, reason = c.str("name", latin1=True), c.str("value", latin1=True), c.str("reason", latin1=True)
-    if not c.symbolic:
+    if not c.symbolic and c.model is None:
         name = c.rng.choice(["X-A", "X\r\nB", "X\x00", name])
         value = c.rng.choice(["v", "a\r\nSet-Cookie: x=1", "a\nb", "ok\tx", value])
         reason = c.rng.choice(["OK", "OK\r\nX: 1", reason])
@@ -193,6 +326,12 @@ def standin(tier, seed):
             if hostile:
                 nontriv.add((api, s))
             if not sep:
+                # rejected when the response is serialised (RequestHandler.flush raises, e.g. a cookie value that is not
+                # latin-1): still "the call is rejected with an exception" as long as not one byte reached the wire
+                late = r.sent == b"" and any(n == "tornado.application" and lvl == "ERROR" and "Uncaught exception" in msg
+                                             for n, lvl, msg in r.logs)
+                if late:
+                    record["raised"] = "at flush"
                 if not (record.get("raised") or r.closed):
                     fail = "no complete header block was written and nothing was rejected"
             else:
